@@ -3,6 +3,7 @@
     sweep exchanges).  [exec true true]: the repaired reset installs copies of the stored values. *)
 From Coq Require Import ZArith List Bool Lia.
 From Epsie Require Import Base Alias Alias_proofs.
+From Epsie Require Machine Sweep_proofs.
 Import ListNotations.
 
 (** The values stored at construction are never written, whatever the history ... *)
@@ -44,3 +45,29 @@ Theorem C19_window_restarts :
   let start := Z.max nsteps 1 in (1 <= start)%Z /\ (nsteps - start + 1 <= 1)%Z /\ (1 <= nsteps -> nsteps - start + 1 = 1)%Z.
 Proof. intros nsteps H. cbn zeta. lia. Qed.
 Print Assumptions C19_window_restarts.
+
+(** Parallel tempering with [reset_after_swap]: the levels whose proposals are reset after a sweep
+    ([tk != swap_index[tk]]) are exactly the levels that took part in an accepted exchange, i.e. the
+    levels whose state was exchanged — for every ladder size and every list of decisions
+    ([dec tj] = the decision for the pair of levels (tj, tj+1), hottest pair first in [ds]). *)
+Theorem C19_pt_resets_exchanged_levels :
+  forall (n : nat) (ds : list bool) (t : nat), 0 < n -> length ds = n - 1 ->
+  let idx := Machine.sweep_idx (n - 1) (seq 0 n) ds in
+  let dec tj := nth (n - 2 - tj) ds false in
+  In t (Machine.reset_levels idx) <-> t < n /\ ((S t < n /\ dec t = true) \/ (0 < t /\ dec (t - 1) = true)).
+Proof. exact Sweep_proofs.reset_levels_spec. Qed.
+Print Assumptions C19_pt_resets_exchanged_levels.
+
+(** and a level keeps its occupant exactly when it is not reset *)
+Theorem C19_pt_unexchanged_levels_keep_their_state :
+  forall (n : nat) (ds : list bool) (t : nat), 0 < n -> t < n -> length ds = n - 1 ->
+  let idx := Machine.sweep_idx (n - 1) (seq 0 n) ds in
+  nth t idx 0 = t <-> ~ In t (Machine.reset_levels idx).
+Proof.
+  intros n ds t Hn Ht Hds idx. unfold Machine.reset_levels. rewrite filter_In, in_seq.
+  unfold idx at 2. rewrite Sweep_proofs.sweep_idx_length. split.
+  - intros E [_ H]. apply Bool.negb_true_iff, Nat.eqb_neq in H. congruence.
+  - intros H. destruct (Nat.eq_dec (nth t idx 0) t) as [E|E]; [exact E|]. exfalso. apply H. split; [cbn; lia|].
+    apply Bool.negb_true_iff, Nat.eqb_neq. congruence.
+Qed.
+Print Assumptions C19_pt_unexchanged_levels_keep_their_state.
